@@ -412,6 +412,13 @@ func TestVerifC18_ConcurrentStop(t *testing.T) {
 	seed := verifC18Seed()
 	rounds := verifC18Iters() * 25
 	rng := rand.New(rand.NewSource(seed))
+	// Only this test's own findings end the loop early: a race report alone (which
+	// also marks the test as failed) must not hide the double close behind it.
+	findings := 0
+	fail := func(format string, args ...interface{}) {
+		findings++
+		t.Errorf(format, args...)
+	}
 
 	for round := 0; round < rounds; round++ {
 		before := runtime.NumGoroutine()
@@ -465,18 +472,18 @@ func TestVerifC18_ConcurrentStop(t *testing.T) {
 		close(panics)
 		close(errs)
 		for p := range panics {
-			t.Errorf("[panic] %s (%s seed=%d round=%d stoppers=%d)", p, name, seed, round, nStoppers)
+			fail("[panic] %s (%s seed=%d round=%d stoppers=%d)", p, name, seed, round, nStoppers)
 		}
 		for err := range errs {
-			t.Errorf("[result-diff] %s seed=%d round=%d: StopIncrementalRebalancing: %v", name, seed, round, err)
+			fail("[result-diff] %s seed=%d round=%d: StopIncrementalRebalancing: %v", name, seed, round, err)
 		}
 		if bt.IsIncrementalRebalancingEnabled() {
-			t.Errorf("[result-diff] %s seed=%d round=%d: still enabled after concurrent stop", name, seed, round)
+			fail("[result-diff] %s seed=%d round=%d: still enabled after concurrent stop", name, seed, round)
 		}
 		if n, ok := verifC18Settle(before); !ok {
 			t.Fatalf("[goroutine-leak] %s seed=%d round=%d: %d goroutines before, %d after stop", name, seed, round, before, n)
 		}
-		if t.Failed() {
+		if findings > 0 {
 			return
 		}
 	}
